@@ -295,10 +295,13 @@ class PrettyPrinter:
         # symbol needs special treatment
         if key == "symbol" and level > 0:
             return False
+        value = composite[key]
+        # a keyword named like a block type (SCALEBAR STYLE 1, MAP SYMBOLSET "file")
+        # is only complex when its value is a block, i.e. a dict or a list
         return (
-            key in COMPLEX_TYPES
+            (key in COMPLEX_TYPES and isinstance(value, (dict, list)))
             or self.is_composite(key)
-            or self.is_hidden_container(key, composite[key])
+            or self.is_hidden_container(key, value)
         )
 
     def is_hidden_container(self, key: str, val: Any) -> bool:
